@@ -439,6 +439,12 @@ def _len(I, self, args, kw, fr, site):
                 return call_value(I, VFunc(o.cls + ".__len__", v), [], {}, fr, site)
     if isinstance(v, VOpaque) and v.tag == "Filtered":
         return VInt(filtered_info(I, v)[0])
+    if isinstance(v, VOpaque) and v.tag in getattr(I.E, "opaque_iter", {}) and not I.E.contract_of(v.tag + ".__len__"):
+        # abstract finite sequence: the same uninterpreted length the for-loop desugaring iterates up to
+        flen = z3.Function("uf_len_" + v.tag, smt.Int, smt.Int)
+        n = flen(v.t if v.t is not None else z3.IntVal(0))
+        I.st.assume(n >= 0)
+        return VInt(n)
     if isinstance(v, VOpaque) and I.E.contract_of(v.tag + ".__len__"):
         return call_value(I, VFunc(v.tag + ".__len__", v), [], {}, fr, site)
     if isinstance(v, VExc):
@@ -1012,6 +1018,22 @@ def _time(I, self, args, kw, fr, site):
     return VFloat(t)
 
 
+@intrinsic("threading.current_thread")
+def _current_thread(I, self, args, kw, fr, site):
+    """which thread runs the function is not known: ghost bool 'on_own_thread' (chosen once per path) says whether it is
+    the Thread object the method belongs to (`self` of the calling frame) or some other thread"""
+    st = I.st
+    g = st.ghost.get("on_own_thread")
+    if g is None:
+        g = VBool(st.fresh_bool("on_own_thread"))
+        st.ghost["on_own_thread"] = g
+        st.ghost_init["on_own_thread"] = g
+    me = fr.locals.get("self")
+    if me is not None and st.decide(zbool(g.t)):
+        return me
+    return VOpaque("Thread", I.fresh_of_type("int", "other_thread").t)
+
+
 @intrinsic("time.sleep")
 def _sleep(I, self, args, kw, fr, site):
     I.st.events.append(("sleep",))
@@ -1521,4 +1543,11 @@ def _ev_wait(I, self, args, kw, fr, site):
                 cur = I.fresh_of_type("int", "ghost.long_waits")
                 I.st.ghost_init["long_waits"] = cur
             I.st.ghost["long_waits"] = VInt(simp(zint(cur.t) + 1))
+    if "event_waits" in I.E.ghost_types:
+        # ghost counter of every wait on an Event, however short
+        cur = I.st.ghost.get("event_waits")
+        if cur is None:
+            cur = I.fresh_of_type("int", "ghost.event_waits")
+            I.st.ghost_init["event_waits"] = cur
+        I.st.ghost["event_waits"] = VInt(simp(zint(cur.t) + 1))
     return VBool(I.st.fresh_bool("event_wait"))
